@@ -8,8 +8,10 @@ import (
 	"fmt"
 	"go.uber.org/zap"
 	"math/rand"
+	mrand "math/rand/v2"
 	"os"
 	"reflect"
+	"runtime"
 	"sync"
 	"sync/atomic"
 	"time"
@@ -214,6 +216,21 @@ func (discardLogger) Warn(string, ...zap.Field)  {}
 func (discardLogger) Error(string, ...zap.Field) {}
 func (discardLogger) Fatal(string, ...zap.Field) {}
 
+// dawdleLogger is a sink that takes a moment (up to 200 µs of somebody else's processor time) over every record.
+type dawdleLogger struct{}
+
+func (dawdleLogger) wait() {
+	d := time.Duration(mrand.IntN(200)) * time.Microsecond
+	for t0 := time.Now(); time.Since(t0) < d; {
+		runtime.Gosched()
+	}
+}
+func (l dawdleLogger) Debug(string, ...zap.Field) { l.wait() }
+func (l dawdleLogger) Info(string, ...zap.Field)  { l.wait() }
+func (l dawdleLogger) Warn(string, ...zap.Field)  { l.wait() }
+func (l dawdleLogger) Error(string, ...zap.Field) { l.wait() }
+func (l dawdleLogger) Fatal(string, ...zap.Field) { l.wait() }
+
 // disconnectCB returns the handler registered with SetDisconnectHandler (nats.go has no getter for it), reading it under
 // the connection's own mutex as the client does.
 func disconnectCB(conn *nats.Conn) nats.ConnHandler {
@@ -288,6 +305,60 @@ func runFlap(rng *rand.Rand, dur time.Duration) int {
 	return int(cycles.Load())
 }
 
+// runReconnectStop: a reconnect notification delivered to a leader while another goroutine stops the election - over and
+// over, with a fresh election each time (a monitored election can be started once).  What the notification's handler
+// starts (the verification goroutine, counted by the election's WaitGroup) must be ordered with the stop call's Wait.
+func runReconnectStop(rng *rand.Rand, dur time.Duration) int {
+	deadline := time.Now().Add(dur)
+	var wg sync.WaitGroup
+	var cycles atomic.Int64
+	for wkr := 0; wkr < 48; wkr++ {
+		seed := rng.Int63()
+		wg.Add(1)
+		go func(wkr int) {
+			defer wg.Done()
+			r := rand.New(rand.NewSource(seed))
+			h := 20 * time.Millisecond
+			for n := 0; time.Now().Before(deadline); n++ {
+				kv := newMemKV(r.Int63())
+				conn := &nats.Conn{}
+				cfg := leader.ElectionConfig{Bucket: "b", Group: fmt.Sprintf("rs%d-%d", wkr, n), InstanceID: "i1", TTL: 3 * h, HeartbeatInterval: h,
+					DisconnectGracePeriod: 2 * h, Logger: dawdleLogger{}}
+				el, err := leader.NewElection(&memProvider{kv, conn}, cfg)
+				if err != nil {
+					return
+				}
+				_ = el.Start(context.Background())
+				for t0 := time.Now(); !el.IsLeader() && time.Since(t0) < 50*time.Millisecond; {
+					time.Sleep(100 * time.Microsecond)
+				}
+				var pair sync.WaitGroup
+				pair.Add(2)
+				go func() {
+					defer pair.Done()
+					if rc := conn.ReconnectHandler(); rc != nil {
+						rc(conn)
+					}
+				}()
+				d := time.Duration(r.Intn(250)) * time.Microsecond
+				go func() {
+					defer pair.Done()
+					for t0 := time.Now(); time.Since(t0) < d; {
+						runtime.Gosched()
+					}
+					_ = el.Stop()
+				}()
+				pair.Wait()
+				_ = el.Stop()
+				cycles.Add(1)
+			}
+		}(wkr)
+	}
+	wg.Wait()
+	time.Sleep(150 * time.Millisecond) // (verifications that were started settle for 100 ms before they look at the flag)
+	return int(cycles.Load())
+}
+
 // runRace drives the public API of several elections from concurrent goroutines in real time. The binary is built
 // with -race; the race detector's reports (GORACE log_path) are collected and normalised by bin/check.
 func runRace(rep *Report, rng *rand.Rand, n int, thorough bool) error {
@@ -304,7 +375,10 @@ func runRace(rep *Report, rng *rand.Rand, n int, thorough bool) error {
 	flapCalls := runFlap(rng, dur/3)
 	rep.Compared += flapCalls
 	rep.hit(fmt.Sprintf("flap-cycles:%d", flapCalls))
-	dur -= dur / 3
+	rsCalls := runReconnectStop(rng, dur/8)
+	rep.Compared += rsCalls
+	rep.hit(fmt.Sprintf("reconnect-stop-cycles:%d", rsCalls))
+	dur -= dur/3 + dur/8
 	for round := 0; round < rounds; round++ {
 		kv := newMemKV(rng.Int63())
 		kv.slowWatch = (rep.Seed+int64(round))%2 == 0
